@@ -345,18 +345,22 @@ pub fn gen(a: &Args) -> Vec<String> {
 pub fn main(a: &Args) {
     match a.extra.get(0).map(|s| s.as_str()) {
         Some("gen") => { write_lines(&format!("{}/cases.txt", a.out), &gen(a)); }
-        Some("run") => {
-            let lines = read_lines(&a.extra[1]);
-            let mut cases = vec![]; let mut obs = vec![]; let mut extras = vec![];
-            for l in lines {
-                let mut c = Sx::parse(&l);
-                if let Sx::Lst(v) = &mut c { v[1] = flags(); }
+        Some("worker") => {
+            worker_loop(|l| {
+                let c = Sx::parse(l);
                 let (o, e) = run_case(&c);
-                obs.push(o.to_string()); extras.push(e.to_string()); cases.push(c.to_string());
-            }
-            write_lines(&format!("{}/cases.txt", a.out), &cases);
+                vec![o.to_string(), e.to_string()]
+            });
+        }
+        Some("run") => {
+            let lines: Vec<String> = read_lines(&a.extra[1]).iter().map(|l| { let mut c = Sx::parse(l); if let Sx::Lst(v) = &mut c { v[1] = flags(); } c.to_string() }).collect();
+            let lim = vec![timeout_obs().to_string(), "(extra timeout)".to_string()];
+            let rs = isolated_map("eg5", &lines, &lim);
+            let mut obs = vec![]; let mut second = vec![];
+            for r in rs { obs.push(r[0].clone()); second.push(r[1].clone()); }
+            write_lines(&format!("{}/cases.txt", a.out), &lines);
             write_lines(&format!("{}/impl.txt", a.out), &obs);
-            write_lines(&format!("{}/extra.txt", a.out), &extras);
+            write_lines(&format!("{}/extra.txt", a.out), &second);
         }
         Some("dbg") => {
             let lines = read_lines(&a.extra[1]);
